@@ -19,6 +19,7 @@ Core Lean only.
 import Earverif.Model.Adm
 import Earverif.Model.PackAlloc
 import Earverif.Model.TrackSpec
+import Earverif.Model.AdmV
 namespace Earverif.Adm
 
 inductive Err where
@@ -588,5 +589,74 @@ def wrappedNonempty (f : Formats) : Bool :=
   match wrappedPacks f with
   | .ok wps => wps.all fun w => !w.channels.isEmpty
   | .error _ => true
+
+/-! ### the document as `validate_structure` sees it (link to the C14 model)
+
+`toDoc a` is the document graph of the C14 model (`Model/AdmV.lean`, `Model/Validate.lean`) that the same real
+ADM document serialises to, on the part of the document both models carry: all references, element types,
+which object parameters are set, the HOA / Matrix block attributes validation reads.  Values that the C14 model
+only compares for equality are tokens there; rationals are mapped to tokens by an injective encoding
+(`ratTok`, 0 ↦ 0).  What the selection model does not carry is filled with the value a valid document has
+(`cartMismatch`, `equation`, `badVar` = false; `v2Allowed` = true; every audioTrackUID has a track index). -/
+
+/-- `TypeDefinition` of a numeric type code (1 DirectSpeakers, 2 Matrix, 3 Objects, 4 HOA, 5 Binaural). -/
+def tdType : Nat → AdmV.TypeDef
+  | 2 => .matrix
+  | 3 => .objects
+  | 4 => .hoa
+  | 5 => .binaural
+  | _ => .directSpeakers
+
+/-- injective token of a rational (0 ↦ 0): Cantor pairing of the zig-zag numerator and the denominator. -/
+def ratTok (q : Rat) : Nat :=
+  if q = 0 then 0
+  else
+    let n : Nat := if q.num < 0 then 2 * q.num.natAbs - 1 else 2 * q.num.natAbs
+    (n + q.den) * (n + q.den + 1) / 2 + q.den + 1
+
+def boolTok (b : Bool) : Nat := if b then 1 else 0
+
+def tdPack (p : Pack) : AdmV.Pack :=
+  { type := tdType p.type, channels := p.channels, packs := p.subPacks, encodePacks := p.encodePacks,
+    input := p.inputPack, output := p.outputPack, norm := p.normalization, scr := p.screenRef.map boolTok,
+    nfc := p.nfcRefDist.map ratTok, absDist := p.absDist.map ratTok }
+
+/-- the audioBlockFormats of a channel: the single HOA / Matrix block with the attributes validation reads, else
+one attribute-less block per block label. -/
+def tdBlocks (c : Channel) : List AdmV.Block :=
+  if c.type = 4 ∧ c.blocks.length = 1 then
+    [{ order := some c.hoa.order, degree := some c.hoa.degree, norm := c.hoa.normalization,
+       scr := c.hoa.screenRef.map boolTok, rtime := c.hoa.rtime.map ratTok,
+       duration := c.hoa.duration.map ratTok, nfc := c.hoa.nfcRefDist.map ratTok }]
+  else if c.type = 2 ∧ c.blocks.length = 1 then
+    [{ outCh := c.matrix.outputChannel,
+       coeffs := c.matrix.coeffs.map fun k =>
+         { input := some k.input, negDelay := match k.delay with | some d => decide (d < 0) | none => false } }]
+  else c.blocks.map fun _ => {}
+
+def tdChan (c : Channel) : AdmV.Channel :=
+  { type := tdType c.type, freq := c.lowPass.isSome || c.highPass.isSome, blocks := tdBlocks c }
+
+def tdObj (o : Obj) : AdmV.Obj :=
+  { objects := o.subObjects, packs := o.packs, tracks := o.tracks, comps := o.complementary,
+    pstart := o.start.isSome, pdur := o.duration.isSome, pgain := o.gain != 1, pmute := o.mute,
+    poffset := o.posOff.isSome, avs := o.avs.map (·.label) }
+
+def tdUid (u : TrackUID) : AdmV.TrackUID :=
+  match u.ref with
+  | .trackFormat t => { trackIndex := some u.trackIndex, pack := some u.pack, trackFormat := some t }
+  | .channel c => { trackIndex := some u.trackIndex, pack := some u.pack, channel := some c }
+
+/-- the C14 document graph of an index-based document. -/
+def toDoc (a : Adm) : AdmV.Doc :=
+  { v2Allowed := true,
+    programmes := a.programmes.map fun p => { contents := p.contents, avs := p.avs },
+    contents := a.contents.map fun c => { objects := c.objects, avs := c.avs },
+    objects := a.objects.map tdObj,
+    packs := a.fmt.packs.map tdPack,
+    channels := a.fmt.channels.map tdChan,
+    streams := a.fmt.streamFormats.map fun c => { channel := some c },
+    trackFormats := a.fmt.trackFormats.map fun s => { stream := some s },
+    trackUIDs := a.fmt.trackUIDs.map tdUid }
 
 end Earverif.Adm
